@@ -268,7 +268,7 @@ IfExit ==
 
 \* range. s.f = form: "none" | "k" | "kv"; s.n, s.n2 variable names; s.f2 (in e2.a): ":=" or "="
 \* collection: ListE(kind, vs), kind in slice | map | chan | ints | custom (index-less) | nil | bad
-ProvidesIndex(kind) == kind \in {"slice", "islice", "array", "ptrslice", "map", "map1", "ints", "customidx"}
+ProvidesIndex(kind) == kind \in {"slice", "islice", "array", "ptrslice", "map", "map1", "ints", "customidx", "customchan"}
 DoRange(s) ==
   LET coll  == s.e
       isSet == s.f # "none"
